@@ -50,6 +50,9 @@ pub struct WorkerReport {
     /// (index, digest) pairs, only with --emit-digests.
     pub digests: Vec<(u64, u64)>,
     pub wall_s: f64,
+    /// Wall time and index of the slowest run (diagnostic only; never part of a digest).
+    #[serde(default)]
+    pub slowest: (u64, u64),
 }
 
 pub struct WorkerArgs {
@@ -96,7 +99,12 @@ pub fn worker_main(def: &EngineDef, a: &WorkerArgs) -> ! {
         if std::env::var("FVSIM_SELFTEST_ABORT_AT").ok().and_then(|s| s.parse::<u64>().ok()) == Some(i) {
             std::process::abort();
         }
+        let t0 = Instant::now();
         let out = execute(def, &a.prop, &sc, &mut rep.stats, &known, false);
+        let ms = t0.elapsed().as_millis() as u64;
+        if ms > rep.slowest.0 {
+            rep.slowest = (ms, i);
+        }
         rep.runs += 1;
         if a.emit_digests {
             rep.digests.push((i, out.digest));
@@ -235,7 +243,9 @@ pub struct BatchResult {
 /// Run a batch on W workers and gather their reports. A dead worker is re-driven from its
 /// last chunk marker with begin markers to pin the run index that kills the process.
 pub fn run_batch(a: &RunArgs, emit_digests: bool) -> BatchResult {
-    let watchdog = Duration::from_secs_f64(a.budget_s * 1.5 + 60.0);
+    // Generous: the wall clock is the one thing the simulator does not own, and a loaded machine
+    // must not turn into an alarm. A run that truly never returns still trips it.
+    let watchdog = Duration::from_secs_f64(a.budget_s * 3.0 + 300.0);
     let children: Vec<_> = (0..a.nworkers)
         .map(|w| {
             (
@@ -256,16 +266,24 @@ pub fn run_batch(a: &RunArgs, emit_digests: bool) -> BatchResult {
             WorkerEnd::Died { last_marker, status } => {
                 eprintln!("worker {w} died ({status}); re-driving from marker {last_marker:?}");
                 let from = last_marker.unwrap_or(0);
+                let by_watchdog = status == "watchdog";
+                // A watchdog kill is re-driven over the worker's whole remaining range (a slow
+                // machine, not the code, may have caused it); any other death over the next chunk.
+                let upto = if by_watchdog { a.n } else { (from + 256 * a.nworkers + 1).min(a.n) };
                 let c = spawn_worker(
-                    &a.prop, a.tier, a.seed, w, a.nworkers,
-                    (from + 256 * a.nworkers + 1).min(a.n), 120.0, true, false, from,
+                    &a.prop, a.tier, a.seed, w, a.nworkers, upto, a.budget_s.max(120.0), true, false, from,
                 );
-                match collect(c, Duration::from_secs(180)) {
+                match collect(c, watchdog) {
                     WorkerEnd::Report(r) => {
-                        // Did not die again: flaky death is a harness problem.
                         eprintln!("worker {w}: death not reproduced on re-drive ({status})");
                         reports.push(*r);
-                        deaths.push((u64::MAX, format!("unreproduced worker death: {status}")));
+                        if by_watchdog {
+                            // Every run is deterministic, so a hang would have hung again: the
+                            // first attempt was starved of CPU. Not an error, but say so.
+                            eprintln!("worker {w}: first attempt was killed by the wall-clock watchdog only; continuing");
+                        } else {
+                            deaths.push((u64::MAX, format!("unreproduced worker death: {status}")));
+                        }
                     }
                     WorkerEnd::Died { last_marker, status } => {
                         deaths.push((last_marker.unwrap_or(from), status));
@@ -511,6 +529,11 @@ pub fn run_main(def: &EngineDef, a: &RunArgs) -> ! {
         println!("KNOWN-FINDING: property={} {} — {}", a.prop, k, what);
     }
     let total_runs: u64 = batch.reports.iter().map(|r| r.runs).sum();
+    if let Some((ms, idx)) = batch.reports.iter().map(|r| r.slowest).max() {
+        if ms >= 2000 {
+            println!("fvsim: slowest run took {ms} ms (index {idx})");
+        }
+    }
     let truncated = batch.reports.iter().any(|r| r.truncated);
     println!(
         "fvsim: {} runs in {:.1}s ({:.0} runs/h){}; distinct non-trivial = {}",
